@@ -18,8 +18,10 @@ EXPL = (
     "line*32+col of the bank / decodes the attribute at row*32+col; flash phase toggles exactly when frame_counter%16==0 and the "
     "buffers are swapped each frame.  D2 shadow coherence - every RAM mutation reachable from the Emulator API is followed on "
     "every exit by ZXScreen::update for that address/bank or by refresh_memory_dependent_devices (must-pass-through on the CFG; "
-    "write_internal path-sensitively).  D3 - local_bank table 48K:0->0, 128K:5->0,7->1.  NOT decided: the beam-relative clause "
-    "(a write before/after the beam shows in this/next frame)."
+    "write_internal path-sensitively).  D3 - local_bank table 48K:0->0, 128K:5->0,7->1.  D4 beam - BlocksCount::from_clocks tabulated for every T of the frame: monotone, 6144 cells in raster order, each "
+    "cell passed within -16..+4 T of first_pixel + line*clocks_line + 4*col; process_clocks renders exactly [recorded, passed "
+    "now) and then records it, keeps the record when nothing passed; passed_from is the difference of the linear cell "
+    "indices (linear arithmetic).  NOT decided: writes inside the tolerance window around the beam."
 )
 
 
@@ -38,6 +40,7 @@ def run(chk):
     local_bank(chk, prog, names)
     shadow_coherence(chk, prog, names)
     refresh_covers_banks(chk, prog, names)
+    beam_relative(chk, prog, names)
     return chk.finish(EXPL)
 
 
@@ -172,10 +175,34 @@ def render_loop(chk, prog, names):
     n = 0
     for r in rs:
         sc = [e for e in r.trace if e.path.endswith("::set_color")]
+        fc_ev = [e for e in r.trace if e.path == FC]
         if len(sc) < 8:
             chk.check(len(sc) == 0, key + "/partial", "a path renders %d pixels of a block" % len(sc))
+            if r.outcome == "return" and len(sc) == 0:
+                # nothing rendered: either nothing passed (record kept) or an empty range; the record never moves
+                # without the cells in between having been rendered
+                lb = r.store[("h", "scr")].fields[prog.field_index(SCR, "last_blocks")]
+                cnt = c04.cc_decide(r, tm.cmp("ult", K(0, 64), tm.sym("COUNT", 64)))
+                if cnt is False:
+                    kept = (getattr(lb, "name", None) == "scr.last_blocks") or \
+                        (isinstance(lb, Agg) and all(isinstance(x, T) and x.op == "sym" and x.args[0].startswith("scr.last_blocks.") for x in lb.fields))
+                    chk.check(kept, key + "/record-kept", "with no cell passed the record of rendered cells changes: %s" % (lb,))
             continue
         n += 1
+        # the rendered range is [cells recorded as rendered, cells passed now)
+        if fc_ev:
+            now = None
+            for c in r.pc:
+                if c[0] in ("eq", "ne") and isinstance(c[1], T) and c[1].op == "ult" and c[1].args[0] is b:
+                    now = c[1].args[1]
+            names_now = sorted(tm.syms(now)) if now is not None else []
+            ok_rng = now is not None and len(names_now) == 2 and all("from_clocks" in x for x in names_now) and \
+                any(x.endswith(".lines") for x in names_now) and any(x.endswith(".columns") for x in names_now)
+            if ok_rng:
+                ln_ = tm.sym([x for x in names_now if x.endswith(".lines")][0], 64)
+                cl_ = tm.sym([x for x in names_now if x.endswith(".columns")][0], 64)
+                ok_rng = tm.equiv(now, tm.binop("add", cl_, tm.binop("shl", ln_, K(5, 64)))) is True or now is tm.binop("add", cl_, tm.binop("shl", ln_, K(5, 64)))
+            chk.check(ok_rng, key + "/range", "the cells rendered do not run from the recorded position up to lines*32+columns of the cells passed now: end %s" % (tm.show(now) if now is not None else None))
         bank = [c[2] for c in r.pc if c[0] == "index" and isinstance(c[1], T) and tm.show(c[1]) == "scr.active_bank"]
         if len(bank) != 1:
             chk.fail(key + "/bank", "the render loop does not read the active bank")
@@ -502,6 +529,100 @@ def refresh_covers_banks(chk, prog, names):
             chk.check(order_ok, key + "/%s/bytes" % m, "%s: refresh does not feed update(i, bank, page[bank][i]) for consecutive i from 0" % m)
         chk.count("refresh-paths", len(rets))
     chk.floor("refresh-paths", 4)
+
+
+def beam_relative(chk, prog, names):
+    """A byte changed clearly before (after) the beam reaches its cell shows in the current (next) frame.
+    (1) BlocksCount::from_clocks, extracted per machine as a closed form of the frame clock and tabulated for every T:
+        it is monotone, counts cells in raster order (32 per line, 192 lines), and cell (line, col) becomes 'passed' at
+        a clock within [-16, +4] T of the documented display time first_pixel + line*clocks_line + 4*col.
+    (2) process_clocks renders exactly the cells [last, now) in increasing order and then records now; with nothing
+        passed it renders nothing and keeps the record; new_frame resets the record (C08 new-frame rule).
+    (3) passed_from == difference of the linear cell indices whenever the clock did not go backwards.
+    With C05 (the frame clock only grows within a frame and every bus wait reaches process_clocks) every cell is
+    rendered once per frame, when the beam gets there, from the screen copy that CPU writes update immediately."""
+    import numpy as np
+    SCR = prog.adt_path("rustzx_core", "ZXScreen")
+    BC = prog.adt_path("rustzx_core", "BlocksCount")
+    FB = ("param", "FB", 0)
+    FCN = prog.fn_path("rustzx_core", "BlocksCount::from_clocks")
+    PF = prog.fn_path("rustzx_core", "BlocksCount::passed_from")
+    li, ci = prog.field_index(BC, "lines"), prog.field_index(BC, "columns")
+    for m in names.machine_variants():
+        key = "T-TABLE/BlocksCount::from_clocks/%s" % m
+        spec = cc.specs_of(prog, names, m)
+        first, line, frame = spec.get("clocks_first_pixel"), spec.get("clocks_line"), spec.get("clocks_frame")
+        if None in (first, line, frame):
+            chk.undecided_(key + "/specs", "machine constants not folded: %s" % spec)
+            continue
+        w = Walker(prog)
+        T_ = tm.sym("FC", 64)
+        rs = w.run(prog.fn(FCN), [T_, cc.machine_value(prog, names, m)], genv={}, state=w.new_state())
+        if not rs or any(r.outcome != "return" for r in rs):
+            chk.undecided_(key + "/paths", "from_clocks exploration: %s" % [(r.outcome, r.detail) for r in rs if r.outcome != "return"][:2])
+            continue
+        ts = np.arange(frame, dtype=np.uint64)
+        env = {"FC": ts}
+        idx = np.full(frame, -1, dtype=np.int64)
+        okp = True
+        for r in rs:
+            try:
+                mk = cc.path_mask(r, env, frame)
+            except Exception as e:
+                chk.undecided_(key + "/conditions", "path condition not a function of the clock: %s" % e)
+                okp = False
+                break
+            if not mk.any():
+                continue
+            bc = r.ret
+            if not (isinstance(bc, Agg) and isinstance(bc.fields[li], T) and isinstance(bc.fields[ci], T)):
+                chk.undecided_(key + "/value", "from_clocks result %s" % (bc,))
+                okp = False
+                break
+            ln = np.asarray(tm.evaluate(bc.fields[li], env)).astype(np.int64) if not bc.fields[li].is_const() else np.full(frame, bc.fields[li].val)
+            cl = np.asarray(tm.evaluate(bc.fields[ci], env)).astype(np.int64) if not bc.fields[ci].is_const() else np.full(frame, bc.fields[ci].val)
+            idx[mk] = (ln * 32 + cl)[mk]
+        if not okp:
+            continue
+        if (idx < 0).any():
+            chk.undecided_(key + "/coverage", "%d clocks covered by no path" % int((idx < 0).sum()))
+            continue
+        chk.check(bool((np.diff(idx) >= 0).all()), key + "/monotone", "the number of passed cells decreases while the clock grows (at T=%s)" % (
+            int(ts[1:][np.diff(idx) < 0][0]) if (np.diff(idx) < 0).any() else "-"))
+        chk.check(int(idx[0]) == 0 and int(idx[-1]) == 192 * 32, key + "/total", "cells passed at the start / end of the frame: %d / %d; documented 0 / 6144" % (int(idx[0]), int(idx[-1])))
+        # the clock at which each cell becomes passed
+        cells = np.arange(192 * 32)
+        t_pass = np.searchsorted(idx, cells, side="right")      # first T with idx > cell
+        doc = first + (cells // 32) * line + (cells % 32) * 4
+        dev = t_pass.astype(np.int64) - doc
+        badc = (dev < -16) | (dev > 4)
+        chk.check(not badc.any(), key + "/beam", "cell %s is rendered %d T from the time the beam displays it (documented first_pixel + line*%d + 4*col, tolerance -16..+4); %d cells out of tolerance" % (
+            int(cells[badc][0]) if badc.any() else "-", int(dev[badc][0]) if badc.any() else 0, line, int(badc.sum())))
+        chk.count("beam-cells", len(cells))
+    # (3) passed_from
+    w = Walker(prog)
+    st = w.new_state()
+    mk_bc = lambda nm: Agg(("adt", BC), 0, [tm.sym(nm + ".lines", 64), tm.sym(nm + ".columns", 64)]) if li == 0 else Agg(("adt", BC), 0, [tm.sym(nm + ".columns", 64), tm.sym(nm + ".lines", 64)])
+    st.store[("h", "now")] = mk_bc("now")
+    st.store[("h", "prev")] = mk_bc("prev")
+    rs = w.run(prog.fn(PF), [Ref(("h", "now"), (), False), Ref(("h", "prev"), (), False)], genv={}, state=st)
+    key = "T-TABLE/BlocksCount::passed_from"
+    from zx import lia
+    nl, ncs, pl, pcs = tm.sym("now.lines", 64), tm.sym("now.columns", 64), tm.sym("prev.lines", 64), tm.sym("prev.columns", 64)
+    npf = 0
+    for r in rs:
+        if r.outcome != "return" or not isinstance(r.ret, T):
+            continue
+        back = c04.cc_decide(r, tm.cmp("ult", nl, pl))
+        if back is True:
+            continue        # clock went backwards: not reachable within a frame (C05)
+        bound = [(lia.Lin({ncs: 1}, -32), "<="), (lia.Lin({pcs: 1}, -32), "<="), (lia.Lin({nl: 1}, -192), "<="), (lia.Lin({pl: 1}, -192), "<=")]
+        want = lambda ctx: lia.lin(r.ret, ctx) - (lia.Lin({nl: 32, ncs: 1}) - lia.Lin({pl: 32, pcs: 1}))
+        ok = lia.prove(dict(r.facts), bound, [(want, "==")], [r.ret])
+        chk.check(ok, key, "passed_from is %s; documented (now.lines*32 + now.columns) - (prev.lines*32 + prev.columns)" % tm.show(r.ret))
+        npf += 1
+    chk.check(npf >= 2, key + "/cases", "forward cases of passed_from explored: %d" % npf)
+    chk.floor("beam-cells", 2 * 6144)
 
 
 def callers_pair(prog, cg, fn, SYNC, depth):
